@@ -28,6 +28,12 @@ pub enum Fp {
     Bad,
     /// a FINGERPRINT that is not the last attribute: [.., FP(good at that point), SOFTWARE]
     NotLast,
+    /// [.., FP(CRC taken with the whole datagram's length: wrong), SOFTWARE]
+    NotLastWholeLen,
+    /// [.., FP(good at that point), FP(CRC with the whole length)]: first one is the RFC value
+    DoubleFirstGood,
+    /// [.., FP(CRC with the whole length: wrong), FP(good at that point)]
+    DoubleFirstWholeLen,
 }
 
 #[derive(Clone, Debug)]
@@ -89,6 +95,18 @@ pub fn craft(r: &Reply) -> Vec<u8> {
         Fp::NotLast => {
             a.push(WAttr::Fp(None));
             a.push(WAttr::Raw(wire::T_SOFTWARE, b"after-fp".to_vec()));
+        }
+        Fp::NotLastWholeLen => {
+            a.push(WAttr::FpWhole);
+            a.push(WAttr::Raw(wire::T_SOFTWARE, b"after-fp".to_vec()));
+        }
+        Fp::DoubleFirstGood => {
+            a.push(WAttr::Fp(None));
+            a.push(WAttr::FpWhole);
+        }
+        Fp::DoubleFirstWholeLen => {
+            a.push(WAttr::FpWhole);
+            a.push(WAttr::Fp(None));
         }
     }
     wire::build_raw(r.method, r.class, &r.txid, &a, &mut Zero)
